@@ -96,7 +96,7 @@ def _reach(cfg, inv):
 def _validate(module, cfg, trace, label, v, fam, lenient=True):
     """validate_batch, turning 'an invariant of the module is violated along a trace' into a violation"""
     try:
-        return vlib.validate_batch(module, cfg, trace, label, lenient=lenient)
+        return vlib.validate_batch(module, cfg, trace, label, lenient=lenient, max_divergences=4)
     except vlib.ToolError as e:
         m = re.search(r"invariant (\S+) violated", str(e))
         if not m:
@@ -104,6 +104,59 @@ def _validate(module, cfg, trace, label, v, fam, lenient=True):
         v.violation("%s invariant=%s" % (fam, m.group(1)), {"family": fam, "invariant": m.group(1), "trace_file": trace,
                                                             "detail": str(e)[-2000:]})
         return None
+
+
+def _validate_groups(trace, w, pid, v, chunk=400):
+    """The batch is validated scenario by scenario (random scenarios in chunks): validate_batch stops after a handful of
+    rejected runs, and one noisy scenario must not hide the others."""
+    groups, order = {}, []
+    cur, key = None, None
+    nrand = 0
+    for ln in open(trace):
+        if ln.startswith('{"a":"reset"'):
+            sc = json.loads(ln).get("meta", {}).get("scenario", "")
+            h = "m%08x" % (hash(sc) & 0xffffffff)
+            if sc not in groups:
+                groups[sc] = []
+                order.append(sc)
+            cur = groups[sc]
+        if cur is not None:
+            cur.append(ln)
+    # micro scenarios have many runs each; random scenarios have few: pool the small ones
+    files, pool = [], []
+    for sc in order:
+        runs = sum(1 for l in groups[sc] if l.startswith('{"a":"reset"'))
+        if runs >= 20:
+            files.append(groups[sc])
+        else:
+            pool.append((runs, groups[sc]))
+    acc, n = [], 0
+    for runs, lines in pool:
+        acc.extend(lines)
+        n += runs
+        if n >= chunk:
+            files.append(acc)
+            acc, n = [], 0
+    if acc:
+        files.append(acc)
+    total = None
+    for i, lines in enumerate(files):
+        gf = os.path.join(w, "group%02d.ndjson" % i)
+        with open(gf, "w") as f:
+            f.writelines(lines)
+        r = _validate("Trace_Factory", "Trace_Factory.cfg", gf, "factory_%s_g%02d" % (pid, i), v, "factory")
+        if r is None:
+            continue
+        if total is None:
+            total = r
+        else:
+            for k in ("runs", "events", "strict_accepted", "tlc_states", "wall_s"):
+                total[k] += r[k]
+            total["divergences"] += r["divergences"]
+            total["violations"] += r["violations"]
+            for k, n in r["deviations"].items():
+                total["deviations"][k] = total["deviations"].get(k, 0) + n
+    return total
 
 
 def run(pid, tier, seed):
@@ -132,7 +185,7 @@ def run(pid, tier, seed):
     summ = vlib.harness(["factory", "--out", trace, "--tier", tier, "--seed", seed])
     if summ.get("bad_runs"):
         log("[V] %d runs hit the step budget before their horizon" % summ["bad_runs"])
-    vb = _validate("Trace_Factory", "Trace_Factory.cfg", trace, "factory_" + pid, v, "factory")
+    vb = _validate_groups(trace, w, pid, v)
     lsumm, lvb = None, None
     if pid == "C15":
         ltrace = os.path.join(w, "leaky.ndjson")
